@@ -266,7 +266,7 @@ def mutants_for(pid, seed, limit):
     rng.shuffle(sites)
     # effect-introducing mutants are rare among all sites: take up to a third of the sample from them first
     effect = []
-    for rel, qual, k in sites:
+    for rel, qual, k in (sites if pid in ("C09", "C11", "C14") else []):
         m = Mutator(qual, k)
         m.visit(ast.parse(srcs[rel]))
         if m.desc and m.desc.startswith(EFFECT_PREFIXES):
